@@ -518,11 +518,19 @@ impl ErasedList {
         b: &'a Self,
     ) -> (MutexGuard<'a, RawList>, MutexGuard<'a, RawList>) {
         if Arc::as_ptr(&a.0) < Arc::as_ptr(&b.0) {
+            #[cfg(roto_verif)]
+            crate::verif::sched::point("acquire", a.vid(), 0);
             let guard_a = a.0.lock().unwrap();
+            #[cfg(roto_verif)]
+            crate::verif::sched::point("acquire", b.vid(), 0);
             let guard_b = b.0.lock().unwrap();
             (guard_a, guard_b)
         } else {
+            #[cfg(roto_verif)]
+            crate::verif::sched::point("acquire", b.vid(), 0);
             let guard_b = b.0.lock().unwrap();
+            #[cfg(roto_verif)]
+            crate::verif::sched::point("acquire", a.vid(), 0);
             let guard_a = a.0.lock().unwrap();
             (guard_a, guard_b)
         }
@@ -552,6 +560,8 @@ impl ErasedList {
     pub unsafe fn concat(&self, other: &Self) -> Self {
         // If both operands are the same list we can only lock it once.
         if Arc::ptr_eq(&self.0, &other.0) {
+            #[cfg(roto_verif)]
+            crate::verif::sched::point("acquire", self.vid(), 0);
             let a = self.0.lock().unwrap();
 
             let new = Self::new(a.vtable.clone());
